@@ -12,6 +12,9 @@ CHECK = {
          'open_revs json and multipart, _bulk_get with and without rev, _all_docs include_docs, _changes include_docs, BLIP pull V3 and V4), then updated '
          '(second generated body) and given a conflicting sibling (third generated body: a key-order / whitespace variant) so that the superseded revision '
          '(warm and flushed revision cache), the non-winning leaf and both open revisions are read as well. '
+         'Reserved names: 70 (700) further bodies carry one of _sync, _sync_*, _purged (must be refused, or round-trip) or _id, _rev, _deleted, _revisions '
+         '(differential only) at the top level, each written twice through the same path - key spelled literally and with \\u escapes: the accept / refuse '
+         'decision must be the same. '
          'isgr part: bodies written on one peer are pushed / pulled to a second RestTester peer over V3 and V4 and read there. '
          'An evaluation = one exact comparison of a returned body against the written one; distinct_nontrivial = distinct (write path, read path, body) '
          'comparisons of accepted bodies.',
@@ -44,7 +47,7 @@ CHECK = {
    'paths.conflicts_accepted': 2000,
    'paths.blip_pulls_completed': 10,
    'paths.underscore_keys_round_tripped': 10000,
-   'paths.writes_rejected_with_underscore_keys': 300,
+   'paths.writes_rejected_with_underscore_keys': 200,
    'paths.escape_differentials': 400,
    'paths.monitor_selfchecks': 5000,
    'isgr.replications_completed': 4,
@@ -58,6 +61,10 @@ CHECK = {
    'top-level keys beginning with an underscore come from a fixed pool of reserved look-alikes plus _sync, _sync_*, _purged: a write carrying them may be '
    'rejected, otherwise the key must round-trip unchanged',
    'only well-formed JSON is written (valid UTF-8, paired surrogates); lone surrogates and invalid UTF-8 are outside the statement',
+   'bodies containing a number outside the double range (1e400) are accepted and compared wherever they are returned, but the rosmar view engine cannot '
+   'parse them, so view-backed reads (changes backfill, BLIP pull, ISGR) do not list such documents and the sync function refuses to update them '
+   '("Unparseable JSRunner input"): counted, not judged',
+   'a superseded revision that is no longer available after a revision-cache flush (404: CE keeps no revision backups) is counted, not judged',
    'Community Edition build: JSON handling is encoding/json (the EE build uses jsoniter); delta sync is not available',
  ],
 }
